@@ -932,7 +932,7 @@ class Bus(ContainerBase, StoreClientMixin): # not a ContainerOperand
         '''
         if key not in self._series._index:
             return default
-        return self._series.__getitem__(key)
+        return self.__getitem__(key) # loads the Frame if it is deferred
 
     #---------------------------------------------------------------------------
     @doc_inject()
